@@ -20,7 +20,10 @@ Init == seq = <<>>
 Call(o, s) == /\ Len(seq) < MaxLen
               /\ (Len(seq) = 0 => s = "fresh")
               /\ seq' = Append(seq, <<o, s>>)
-Next == \E o \in Ops, s \in Srcs : Call(o, s)
+\* a REJECTED call (a block of the wrong length, through encrypt or decrypt) anywhere in the history: the object must be unaffected by it
+Bad(o) == /\ Len(seq) < MaxLen
+          /\ seq' = Append(seq, <<o, "badlen">>)
+Next == (\E o \in Ops, s \in Srcs : Call(o, s)) \/ (\E o \in Ops : Bad(o))
 \* ---- crafted blocks ----
 CraftKeys == << K0, <<0,0,0,0,124,0,0,0,0,0,0,0,0,0,0,0>>, [j \in 1..16 |-> (j * 37 + 11) % 256] >>
 Targets == << <<0,0>>, <<65535,65535>>, <<\hd6d6,\hd6d6>>, <<\h0101,\h0101>> >>
